@@ -36,7 +36,7 @@ private theorem slice_next {α} (pre : List α) (x : α) (rest : List α) :
       simp only [List.length_cons]; omega
     rw [this]
 
-private def finish : Py.Flow (Int × Int) (Int × Int) → Except String (Int × Int)
+private def finish : Py.Flow String (Int × Int) (Int × Int) → Except String (Int × Int)
   | .ret r => .ok r
   | .raise e => .error e
   | .fall (l, c) => .ok (l + 1, c + 1)
